@@ -183,7 +183,7 @@ Section Seq.
     match nth_error (cells a) i with Some (Some v) => Some v | _ => None end.
 
   (* for (i = 0; i < nitems; i++) if (eq(Array_Item(a, i), obj)) ...   -> first index *)
-  Fixpoint cells_find (cs : list (option E)) (n i : nat) (v : E) : option (option nat) :=
+  Fixpoint cells_find (cs : list (option E)) (n i : nat) (v : E) {struct n} : option (option nat) :=
     match n with
     | 0 => Some None
     | S n' =>
@@ -194,7 +194,7 @@ Section Seq.
     end.
 
   (* values of the first n cells *)
-  Fixpoint cells_values (cs : list (option E)) (n : nat) : option (list E) :=
+  Fixpoint cells_values (cs : list (option E)) (n : nat) {struct n} : option (list E) :=
     match n with
     | 0 => Some []
     | S n' =>
@@ -492,7 +492,7 @@ Section Seq.
     end.
 
   (* items[0..n-1] as objects *)
-  Fixpoint t_objs (its : list titem) (n : nat) : option (list E) :=
+  Fixpoint t_objs (its : list titem) (n : nat) {struct n} : option (list E) :=
     match n with
     | 0 => Some []
     | S n' =>
